@@ -28,6 +28,11 @@ from vlib import xpref, xpgen
 SHEET_NS = {"p": "urn:p", "q": "urn:q", "xml": xpgen.XML_NS}
 
 
+# how the library's instructions drive its event machine where XSLT leaves no trace in the result (set by
+# props/C01.py from translator facts; only the event SCRIPT for the model depends on it, never the oracle)
+EMIT = {"copy-of": True, "value-of-dot": True}     # an empty string still issues a characters() event
+
+
 class XsltError(Exception):
     pass
 
@@ -577,9 +582,10 @@ class Interp:
             self.trace.append(tok)
 
     def emit_text(self, b, s, via_copy_of=False):
-        if s != "" or via_copy_of:
+        # via_copy_of: False | "copy-of" | "value-of-dot"
+        if s != "" or (via_copy_of and EMIT.get(via_copy_of, True)):
             self.ev("T," + s.encode("utf-8").hex())
-        b.text(s, via_copy_of)
+        b.text(s, bool(via_copy_of))
 
     def emit_start(self, b, name, shown):
         if self.depth > 0 and name[0]:
@@ -626,7 +632,7 @@ class Interp:
             elif k == "value-of":
                 dot = ins[1] == ("path", None, [], [("self", "node", [])])
                 self.marker_next = ins[1][0] == "var"
-                self.emit_text(b, self.ref.to_str(self.xp(ins[1], cx, env)), via_copy_of=dot)
+                self.emit_text(b, self.ref.to_str(self.xp(ins[1], cx, env)), via_copy_of="value-of-dot" if dot else False)
             elif k == "comment":
                 s = self.body_string(ins[1], cx, env, tm, mode, "comment")
                 self.ev("C," + s.encode("utf-8").hex())
@@ -648,7 +654,7 @@ class Interp:
                     for n in v.nodes:
                         self.copy_rtf_node(n, b)
                 else:
-                    self.emit_text(b, self.ref.to_str(v), via_copy_of=True)
+                    self.emit_text(b, self.ref.to_str(v), via_copy_of="copy-of")
             elif k == "apply":
                 sel = ins[1] if ins[1] is not None else ("path", None, [], [("child", "node", [])])
                 wp = self.with_params(ins[4], cx, env)
